@@ -1492,7 +1492,7 @@ fn generate(ctx: &Ctx) {
   );
   ctx.assume("the gate executor polls the root future on one thread; handlers that spawn onto other threads or use real timers/IO are outside the explored space");
   ctx.assume("the order in which resolve_multiple first polls its futures is the iteration order of a std HashSet (RandomState) and cannot be controlled from outside: for futures that are ready at their first poll (unsupported method, unparsable DID, did:jwk, failure before any gate) the completion order is whatever that order is in the execution at hand, and so is the order in which handlers waiting on ONE shared gate complete; their gated twins (failure / success after own gates) are enumerated exhaustively. No verdict on a tree that satisfies the statement depends on it; replays of cases with two or more distinct DIDs are repeated (up to 256 times) so that verdicts on changed trees, which may depend on it, reproduce");
-  ctx.assume("resolve_multiple starts the resolution of all distinct DIDs before it waits for any of them (documented: 'Concurrently fetches'); a resolver that bounds the number in flight would register a set of gates that depends on the HashSet order, which the explorer reports as a machinery error (replay divergence, exit 2), never as a verdict");
+  ctx.assume("resolve_multiple starts the resolution of all distinct DIDs before it waits for any of them (documented: 'Concurrently fetches'); a resolver that bounds the number in flight would register a set of gates that depends on the HashSet order, which the explorer counts as replay divergences (machinery message, never a verdict by itself); the wide lists (9 - 12 distinct DIDs, deviation-bounded schedules) exist so that such a resolver is judged on what it returns: a verdict is reported only for an execution whose own result contradicts the statement (Ok although a DID fails, a missing or extra entry)");
   ctx.assume("serde_json is trusted to parse the harness's own JWK text; base64url of the did:jwk identifiers is the harness's own encoder");
   ctx.assume("the harness handlers are the only source of asynchrony: every suspension point of a handler is a named gate, so all completion orders and all interleavings of 1- and 2-step handlers are enumerated");
 
